@@ -6,20 +6,33 @@ import treeutil as tu
 ID = "C01"
 GEN_DEPENDS = ["PyBits"]
 RULE = ("random rose trees 1-12 leaves (40 in thorough) built through the Node API over namespaces with extra members, removed "
-        "members (holes, incl. bit 0) and shuffled taxon->bit assignment, unary nodes and polytomies, three rooting states x "
-        "encode flags; pairs (re-drawn: children shuffled, unifurcations inserted, unrooted re-seeded by an independent graph "
-        "re-rooting / different topology); rebuilds from shuffled encodings and from arbitrary split lists; predicate triples on "
-        "raw integers (negative and > 2^64 included) and on real Bipartition objects. Non-trivial = tree with >= 4 leaves and "
-        ">= 1 internal edge (encode/pairs/rebuild) or masks that are neither 0 nor full (predicates)")
+        "members (holes, incl. bit 0) and shuffled taxon->bit assignment, unary nodes and polytomies, occasionally taxon-less leaves, "
+        "three rooting states x encode flags x entry points (encode_/update_bipartitions, encode_/update_splits, mutable, "
+        "suppress_storage); pairs (re-drawn: children shuffled, unifurcations inserted, unrooted re-seeded by an independent graph "
+        "re-rooting; one leaf regrafted; different shape) each encoded under independent flags; rebuilds from shuffled encodings "
+        "and from arbitrary split lists; predicate triples on raw integers (negative and > 2^64 included) and on Bipartition objects "
+        "compiled in both rooting states and taken from real encodings; query-edit-query histories. Every case is a self-contained "
+        "description (tokens, namespace bits, flags) that the judge re-reads, so every failure replays from its own record. "
+        "Non-trivial = tree with >= 4 leaves and >= 1 internal edge (encode/pairs/rebuild) or masks that are neither 0 nor full (predicates)")
 MODELLED_NOT_VERIFIED = [
     "C01: encode_bipartitions / from_split_bitmasks are hand-modelled (lean/DendroModel/Model/{TreeOps,C01,Hier}.lean) and tied "
     "to the code by the correspondence on generated trees; the four integer functions are regenerated from source (Gen/PyBits.lean)",
     "C01: the mutable Bipartition object protocol (is_mutable, hashing by split mask) and the edge-map caches are not modelled",
 ]
-EXPLANATION = ("Theorems over all masks/trees: refinement of the generated integer functions to set operations, mask_spec, split_spec, "
-               "equal clade sets <-> same topology up to child order and unifurcations (rooted), invariance of normalised split sets under "
-               "an edge inversion (unrooted seed position), ins_spec/build_spec for greedy reconstruction in any order, predicate "
-               "characterisations.")
+EXPLANATION = ("Theorems over all masks/trees. About the driver's own definitions: encode_pairs_spec (every pair of `encode` is a node's "
+               "leafset mask and its rooted / LSB-normalised split), encode_rooted_iff_topology (equal split sets of `encode` <-> same topology up "
+               "to child order and unifurcations, any flags), encode_unrooted_eq_usplits (`encode`'s unrooted split set = {0} + usplits of the "
+               "encoded tree), encode_unrooted_invariant / _flags_invariant (child order, unifurcations, basal collapse and flags do not change "
+               "the unrooted split set), encode_none_eq_unrooted, build_rooted_clades (`build` = prep filter + greedy insertion into the star, "
+               "fed the clades of a tree in any order/multiplicity, has exactly the star's clades plus the tree's non-trivial clades), "
+               "rebuild_rooted_topology (the tree `build` makes of `encode`'s rooted split masks in any order/multiplicity is Iso to the encoded tree "
+               "with unifurcations suppressed, and has no unifurcation itself; members = the tree's taxa, all-bits mask may be larger), "
+               "encode_unrooted_determines_topology_partial (equal unrooted split sets of `encode` => Iso, for trees seeded next to the lowest leaf), "
+               "is_trivial_sets / is_compatible_sets / is_compatible_four_quadrants / is_nested_sets (the regenerated predicates as statements "
+               "about taxon sets). Underneath: refinement of the generated integer functions, mask_spec, split_spec, norm_sets, "
+               "ins_spec/build_spec. Still partial: unrooted sufficiency only for trees seeded next to the lowest leaf "
+               "plus one-inversion invariance (composition of inversions unproved); unrooted rebuild "
+               "(prep's complement-on-bit-0 path) and treeCompatible are tied by the correspondence only.")
 
 
 # ------------------------------------------------------------------ independent oracles
@@ -217,86 +230,149 @@ def nontrivial_tree(tree):
 
 
 ROOT = {True: "R", False: "U", None: "N"}
+UNROOT = {"R": True, "U": False, "N": None}
 
 
-# ------------------------------------------------------------------ ops
-def op_pyint(ctx, dendropy, pending):
+def nested_or_disjoint(A, B):
+    return (not (A & B)) or A <= B or B <= A
+
+
+def namespace_desc(tns):
+    return {"bits": [tns.accession_index(t) for t in tns], "count": tns._current_accession_count}
+
+
+def namespace_for(dendropy, ns):
+    """a fresh namespace with the recorded member bits (holes included) in the recorded member order"""
+    tns = dendropy.TaxonNamespace(["t%d" % i for i in range(ns["count"])])
+    keep = set(ns["bits"])
+    for t in list(tns):
+        if tns.accession_index(t) not in keep:
+            tns.remove_taxon(t)
+    order = {b: i for i, b in enumerate(ns["bits"])}
+    tns._taxa.sort(key=lambda t: order[tns.accession_index(t)])
+    return tns
+
+
+def tree_for_case(dendropy, case, key="tree", tns=None):
+    """rebuild the real tree of a recorded case through the Node API"""
+    tns = tns or namespace_for(dendropy, case["ns"])
+    tree, ids = tu.tree_from_tokens(dendropy, case[key], rooted=UNROOT[case["rooted"]], tns=tns)
+    return tree, ids
+
+
+def tree_case(tree, op, **more):
+    toks, _ = tu.encode_tree(tree, with_labels=False)
+    case = {"op": op, "tree": toks, "rooted": ROOT[tree.is_rooted], "ns": namespace_desc(tree.taxon_namespace)}
+    case.update(more)
+    return case
+
+
+# ------------------------------------------------------------------ judges: one per op, each reads a self-contained case
+def judge_pyint(ctx, dendropy, case, pending):
     from dendropy.datamodel.treemodel._bipartition import Bipartition
     from dendropy.utility import bitprocessing
-    rng = ctx.rng
-
-    def rint():
-        r = rng.random()
-        if r < 0.3:
-            return rng.randint(-40, 40)
-        if r < 0.6:
-            return rng.getrandbits(rng.choice([8, 20, 70, 130])) * rng.choice([1, -1])
-        return rng.randint(0, 255)
-    a, b, k = rint(), rint(), rng.randint(0, 70)
+    a, b, k = case["a"], case["b"], case["k"]
     got = "%d %d %d %d %d %d %d" % (a & b, a | b, a ^ b, ~a, a << k, Bipartition.normalize_bitmask(a, b, k),
                                     bitprocessing.least_significant_set_bit(a))
     ctx.case(["pyint", a, b, k], a not in (0, -1) and b not in (0, -1), kind="pyint")
-    pending.append(("pyint %d %d %d" % (a, b, k), {"op": "pyint", "a": a, "b": b, "k": k}, got))
+    pending.append(("pyint %d %d %d" % (a, b, k), case, got))
 
 
-def op_pred(ctx, dendropy, pending):
+def judge_bitfunction(ctx, dendropy, case, pending):
+    """lowest set bit / normalisation against their meaning on sets (used by search() and by replays of its findings)"""
     from dendropy.datamodel.treemodel._bipartition import Bipartition
-    rng = ctx.rng
-    nb = rng.randint(1, 9)
-    if rng.random() < 0.85:
-        fill = (1 << nb) - 1
-        if rng.random() < 0.3:
-            fill &= ~(1 << rng.randrange(nb))
-        a, b = rng.getrandbits(nb), rng.getrandbits(nb)
-        if rng.random() < 0.7:
-            a &= fill
-            b &= fill
-    else:
-        fill, a, b = rng.randint(-5, 600), rng.randint(-600, 600), rng.randint(-600, 600)
-    got = "%d %d" % (int(Bipartition.is_trivial_bitmask(a, fill)), int(Bipartition.is_compatible_bitmasks(a, b, fill)))
-    try:
+    from dendropy.utility import bitprocessing
+    if case["op"] == "lsb":
+        n = case["n"]
+        if bitprocessing.least_significant_set_bit(n) != (n & -n):
+            ctx.fail("bitfunction", "least_significant_set_bit(%d) = %d, lowest set bit is %d" % (
+                n, bitprocessing.least_significant_set_bit(n), n & -n), case)
+        return
+    a, fill = case["a"], case["fill"]
+    A, F = bits_of(a), bits_of(fill)
+    got = Bipartition.normalize_bitmask(a, fill, fill & -fill)
+    want = sum(1 << i for i in ((F - A) if min(F) in A else A))
+    if got != want:
+        ctx.fail("bitfunction", "normalize_bitmask(%d, %d, %d) = %d, expected %d" % (a, fill, fill & -fill, got, want), case)
+
+
+def judge_pred(ctx, dendropy, case, pending, count=True):
+    """clause (e) on integers and on Bipartition objects compiled from them.
+    Set-theoretic definitions used by the oracle (A, B leafsets inside the tree leafset F):
+      trivial            one side of A | F-A has at most one taxon
+      compatible         rooted bipartitions are clades: A, B disjoint or nested;
+                         unrooted bipartitions are splits: one of A&B, A-B, B-A, F-(A|B) is empty
+      leafset nested     A is a subset of B
+    The static `is_compatible_bitmasks` receives masks, not bipartitions: on masks inside F it is judged as clades
+    (disjoint or nested) - the definition for rooted split masks, and equal to the four-quadrant one on every pair of
+    normalised unrooted split masks (both avoid the lowest taxon, so F-(A|B) is never empty)."""
+    from dendropy.datamodel.treemodel._bipartition import Bipartition
+    a, b, fill = case["a"], case["b"], case["fill"]
+    got = "%d %d" % (int(bool(Bipartition.is_trivial_bitmask(a, fill))), int(bool(Bipartition.is_compatible_bitmasks(a, b, fill))))
+    nested = None
+    if fill >= 0 and a >= 0:
         b1 = Bipartition(leafset_bitmask=a, tree_leafset_bitmask=fill, compile_bipartition=False)
         nested = int(bool(b1.is_leafset_nested_within(b)))
-    except Exception:
-        nested = None
-    case = {"op": "pred", "a": a, "b": b, "fill": fill}
-    ctx.case(["pred", a, b, fill], a not in (0, fill) and b not in (0, fill), sample=case, kind="pred")
-    # oracle on the domain the statement speaks about: masks within a non-empty fill
-    if fill > 0 and 0 <= a and 0 <= b and (a & ~fill) == 0 and (b & ~fill) == 0:
-        A, B, F = bits_of(a), bits_of(b), bits_of(fill)
-        want_triv = len(A) <= 1 or len(F - A) <= 1
-        if bool(Bipartition.is_trivial_bitmask(a, fill)) != want_triv:
-            ctx.fail("predicate", "is_trivial_bitmask(%d, %d) = %s but the split has sides of %d and %d taxa" % (
-                a, fill, not want_triv, len(A), len(F - A)), case)
-        # rooted clades, or unrooted splits normalised on a common lowest bit: nested-or-disjoint
-        low = min(F)
-        if (low not in A and low not in B):
-            want = quadrants_empty(A, B, F)
-            if bool(Bipartition.is_compatible_bitmasks(a, b, fill)) != want:
-                ctx.fail("predicate", "is_compatible_bitmasks(%d,%d,%d) = %s, four-quadrant definition says %s" % (a, b, fill, not want, want), case)
-        want = (not (A & B)) or A <= B or B <= A
-        if low in A or low in B:
-            if bool(Bipartition.is_compatible_bitmasks(a, b, fill)) != want:
-                ctx.fail("predicate", "is_compatible_bitmasks(%d,%d,%d) on clades = %s, nested-or-disjoint says %s" % (a, b, fill, not want, want), case)
-        if nested is not None and bool(nested) != (A <= B):
-            ctx.fail("predicate", "is_leafset_nested_within: leafset %d within %d (fill %d) = %s" % (a, b, fill, bool(nested)), case)
-    line = "pred %d %d %d" % (a, b, fill)
-    pending.append((line, case, got + (" %d" % nested if nested is not None else " ?")))
+    if count:
+        ctx.case(["pred", a, b, fill], a not in (0, fill) and b not in (0, fill), sample=case, kind="pred")
+    pending.append(("pred %d %d %d" % (a, b, fill), case, got + (" %d" % nested if nested is not None else " ?")))
+    if not (fill > 0 and 0 <= a and 0 <= b and (a & ~fill) == 0 and (b & ~fill) == 0):
+        return      # outside the domain the statement speaks about: correspondence with the model only
+    A, B, F = bits_of(a), bits_of(b), bits_of(fill)
+    low = min(F)
+    want_triv = len(A) <= 1 or len(F - A) <= 1
+    if bool(Bipartition.is_trivial_bitmask(a, fill)) != want_triv:
+        ctx.fail("predicate", "is_trivial_bitmask(%d, %d) = %s but the split has sides of %d and %d taxa" % (
+            a, fill, not want_triv, len(A), len(F - A)), case)
+    want = nested_or_disjoint(A, B)
+    if bool(Bipartition.is_compatible_bitmasks(a, b, fill)) != want:
+        ctx.fail("predicate", "is_compatible_bitmasks(%d,%d,%d) = %s; as taxon sets %s / %s are %s" % (
+            a, b, fill, not want, sorted(A), sorted(B), "disjoint or nested" if want else "overlapping, neither nested"), case)
+    if nested is not None and bool(nested) != (A <= B):
+        ctx.fail("predicate", "is_leafset_nested_within: leafset %d within %d (fill %d) = %s" % (a, b, fill, bool(nested)), case)
+    for rooted in (True, False):
+        x = Bipartition(leafset_bitmask=a, tree_leafset_bitmask=fill, is_rooted=rooted, compile_bipartition=True)
+        y = Bipartition(leafset_bitmask=b, tree_leafset_bitmask=fill, is_rooted=rooted, compile_bipartition=True)
+        ws = a if rooted else (sum(1 << i for i in (F - A)) if low in A else a)
+        if x.leafset_bitmask != a or x.split_bitmask != ws:
+            ctx.fail("predicate", "Bipartition(leafset=%d, tree leafset=%d, rooted=%s) compiled to leafset %s / split %s, expected %d / %d" % (
+                a, fill, rooted, x.leafset_bitmask, x.split_bitmask, a, ws), case)
+            continue
+        want = nested_or_disjoint(A, B) if rooted else quadrants_empty(A, B, F)
+        if bool(x.is_compatible_with(y)) != want:
+            ctx.fail("predicate", "is_compatible_with = %s for %s bipartitions with leafsets %s / %s of %s; the set definition says %s" % (
+                not want, "rooted" if rooted else "unrooted", sorted(A), sorted(B), sorted(F), want), case)
+        if bool(x.is_incompatible_with(y)) == want:
+            ctx.fail("predicate", "is_incompatible_with is not the negation of the set-theoretic compatibility (leafsets %s / %s of %s, rooted=%s)" % (
+                sorted(A), sorted(B), sorted(F), rooted), case)
+        if bool(x.is_trivial()) != want_triv:
+            ctx.fail("predicate", "Bipartition.is_trivial() = %s for sides of %d and %d taxa (rooted=%s)" % (
+                not want_triv, len(A), len(F - A), rooted), case)
+        if bool(x.is_leafset_nested_within(y)) != (A <= B):
+            ctx.fail("predicate", "is_leafset_nested_within = %s for %s within %s (rooted=%s)" % (A > B, sorted(A), sorted(B), rooted), case)
+
+
+ENCODE_VARIANTS = 6
 
 
 def run_encode(tree, sup, col, variant=0):
-    """variant: 0 encode_bipartitions, 1 update_bipartitions (alias), 2 mutable bipartitions, 3 suppress_storage"""
+    """variant: 0 encode_bipartitions, 1 update_bipartitions (alias), 2 mutable bipartitions, 3 suppress_storage,
+    4 encode_splits, 5 update_splits (deprecated aliases).  Returns the sorted (leafset, split) pairs of the encoding."""
+    kw = dict(suppress_unifurcations=sup, collapse_unrooted_basal_bifurcation=col)
     if variant == 1:
-        tree.update_bipartitions(suppress_unifurcations=sup, collapse_unrooted_basal_bifurcation=col)
+        tree.update_bipartitions(**kw)
     elif variant == 2:
-        tree.encode_bipartitions(suppress_unifurcations=sup, collapse_unrooted_basal_bifurcation=col, is_bipartitions_mutable=True)
+        tree.encode_bipartitions(is_bipartitions_mutable=True, **kw)
     elif variant == 3:
-        tree.encode_bipartitions(suppress_unifurcations=sup, collapse_unrooted_basal_bifurcation=col, suppress_storage=True)
-        if tree.bipartition_encoding is not None:
-            raise AssertionError("suppress_storage=True left a bipartition_encoding list")
+        # whatever is (not) stored in bipartition_encoding, every edge carries its bipartition
+        tree.encode_bipartitions(suppress_storage=True, **kw)
         return sorted((nd.edge.bipartition.leafset_bitmask, nd.edge.bipartition.split_bitmask) for nd in tu.walk(tree.seed_node))
+    elif variant == 4:
+        tree.encode_splits(**kw)
+    elif variant == 5:
+        tree.update_splits(**kw)
     else:
-        tree.encode_bipartitions(suppress_unifurcations=sup, collapse_unrooted_basal_bifurcation=col)
+        tree.encode_bipartitions(**kw)
     return sorted((b.leafset_bitmask, b.split_bitmask) for b in tree.bipartition_encoding)
 
 
@@ -306,7 +382,7 @@ def check_encoding_exact(ctx, tree, case, stored=True, maps=True):
     L = masks[id(tree.seed_node)]
     rooted = bool(tree.is_rooted)
     low = (L & -L)
-    seen = []
+    per_edge = []
     for nd in tu.walk(tree.seed_node):
         b = nd.edge.bipartition
         if b is None:
@@ -319,8 +395,6 @@ def check_encoding_exact(ctx, tree, case, stored=True, maps=True):
         if nd.edge.leafset_bitmask != want or nd.edge.split_bitmask != b.split_bitmask:
             ctx.fail("encoding", "Edge.leafset_bitmask/split_bitmask accessors disagree with the bipartition", case)
             return
-        if L == 0:
-            continue
         if rooted:
             ws = want
         else:
@@ -329,177 +403,119 @@ def check_encoding_exact(ctx, tree, case, stored=True, maps=True):
             ctx.fail("encoding", "split bitmask %s for leafset %d on tree leafset %d (rooted=%s), expected %d" % (
                 b.split_bitmask, want, L, tree.is_rooted, ws), case)
             return
-        seen.append(id(b))
+        per_edge.append((want, ws))
     if not stored:
         return
     enc = tree.bipartition_encoding
-    if sorted(id(b) for b in enc) != sorted(id(nd.edge.bipartition) for nd in tu.walk(tree.seed_node)):
+    if sorted((b.leafset_bitmask, b.split_bitmask) for b in enc) != sorted(per_edge):
         ctx.fail("encoding", "bipartition_encoding is not exactly one bipartition per retained edge", case)
-    if L and maps:      # mutable bipartitions are unhashable by design, so the edge maps are not available for them
+    if maps and L:      # mutable bipartitions are unhashable by design, so the edge maps are not available for them; a tree
+        # without a single taxon is outside the statement's domain (its bipartitions are left uncompiled, hence unhashable)
+        splits = set(ws for _, ws in per_edge)
         sbm = tree.split_bitmask_edge_map
-        for nd in tu.walk(tree.seed_node):
-            if nd.edge.split_bitmask not in sbm:
-                ctx.fail("encoding", "split_bitmask_edge_map lacks a split of the tree", case)
-                break
+        if set(sbm.keys()) != splits:
+            ctx.fail("encoding", "split_bitmask_edge_map keys %s are not the tree's split bitmasks %s" % (sorted(sbm.keys()), sorted(splits)), case)
+            return
+        edges = set(id(nd.edge) for nd in tu.walk(tree.seed_node))
+        for s, e in sbm.items():
+            if id(e) not in edges or e.bipartition.split_bitmask != s:
+                ctx.fail("encoding", "split_bitmask_edge_map[%d] is not an edge of the tree with that split" % s, case)
+                return
+        for bp, e in tree.bipartition_edge_map.items():
+            if id(e) not in edges or e.bipartition.split_bitmask != bp.split_bitmask:
+                ctx.fail("encoding", "bipartition_edge_map maps a bipartition to an edge that does not carry its split", case)
+                return
 
 
-def op_encode(ctx, dendropy, pending, tree=None, flags=None, variant=None):
-    rng = ctx.rng
-    tree = tree or gen_tree(dendropy, rng, ctx.pick(12, 40) if rng.random() < 0.9 else 3)
-    sup, col = flags or (rng.random() < 0.8, rng.random() < 0.8)
+def judge_encode(ctx, dendropy, case, pending, tree=None, kind="encode"):
+    if tree is None:
+        tree, _ = tree_for_case(dendropy, case)
     toks, ids = tu.encode_tree(tree, with_labels=False)
-    case = {"op": "encode", "tree": toks, "rooted": ROOT[tree.is_rooted], "sup": sup, "col": col,
-            "ns": namespace_desc(tree.taxon_namespace)}
-    if variant is not None:
-        case["variant"] = variant
-    if tu.leafset_masks(tree)[id(tree.seed_node)] == 0:
-        return  # no taxon at all: the library leaves split masks undefined
+    sup, col, variant = case["sup"], case["col"], case.get("variant", 0)
     nt = nontrivial_tree(tree)
-    variant = case.get("variant", rng.choice([0, 0, 0, 1, 2, 3]))
-    case["variant"] = variant
     pairs = run_encode(tree, sup, col, variant)
     probs = tu.arborescence_problems(tree)
     if probs:
         ctx.fail("encoding", "tree malformed after encode_bipartitions: %s" % probs, case)
     check_encoding_exact(ctx, tree, case, stored=(variant != 3), maps=(variant != 2))
     got = " ".join("%d:%d" % p for p in pairs) + " | " + tu.render_tree(tree, ids)
-    ctx.case(["encode", toks, case["rooted"], sup, col], nt, sample=case, kind="encode")
+    ctx.case([kind, toks, case["rooted"], sup, col], nt, sample=case, kind=kind)
     pending.append(("encode %s %d %d %s" % (case["rooted"], sup, col, " ".join(toks)), case, got))
 
 
+EDIT_KINDS = ("swap", "remove", "regraft", "newchild", "collapse", "group")
 
-def op_reencode(ctx, dendropy, pending):
+
+def apply_edit(dendropy, tree, edit):
+    """one public-API edit, described by pre-order node indices of the tree as it stands; inapplicable edits are no-ops"""
+    kind, i, j = edit
+    nodes = tu.walk(tree.seed_node)
+    if i >= len(nodes) or j >= len(nodes):
+        return
+    x, y = nodes[i], nodes[j]
+    if kind == "swap":
+        if not x._child_nodes and not y._child_nodes:
+            x.taxon, y.taxon = y.taxon, x.taxon
+    elif kind == "remove":
+        if not x._child_nodes and x._parent_node is not None and len(x._parent_node._child_nodes) > 1:
+            x._parent_node.remove_child(x)
+    elif kind == "regraft":
+        p = x._parent_node
+        if not x._child_nodes and p is not None and len(p._child_nodes) > 2 and y._child_nodes and y is not p:
+            p.remove_child(x)
+            y.add_child(x)
+    elif kind == "newchild":
+        used = set(id(nd.taxon) for nd in nodes if nd.taxon is not None)
+        unused = [t for t in tree.taxon_namespace if id(t) not in used]
+        if unused and x._child_nodes:
+            x.new_child(taxon=unused[0])
+    elif kind == "collapse":
+        if x._child_nodes and x._parent_node is not None:
+            x.edge.collapse()
+    elif kind == "group":
+        if len(x._child_nodes) >= 3:
+            k1, k2 = x._child_nodes[0], x._child_nodes[1]
+            new = dendropy.Node()
+            x.remove_child(k1)
+            x.remove_child(k2)
+            new.add_child(k1)
+            new.add_child(k2)
+            x.add_child(new)
+
+
+def judge_reencode(ctx, dendropy, case, pending):
     """encode, edit the tree through the public API, encode again: the second encoding must describe the edited tree
     (a stale or partially refreshed encoding is the classic slip)"""
-    rng = ctx.rng
-    tree = gen_tree(dendropy, rng, ctx.pick(10, 25), hole_rate=0.2)
-    if tu.leafset_masks(tree)[id(tree.seed_node)] == 0:
-        return
+    tree, _ = tree_for_case(dendropy, case)
     tree.encode_bipartitions()
     _ = tree.split_bitmask_edge_map
-    nodes = tu.walk(tree.seed_node)
-    leaves = [nd for nd in nodes if not nd._child_nodes]
-    edits = []
-    for _k in range(rng.randint(1, 3)):
-        r = rng.random()
-        nodes = tu.walk(tree.seed_node)
-        leaves = [nd for nd in nodes if not nd._child_nodes]
-        if r < 0.35 and len(leaves) >= 2:
-            a, b = rng.sample(leaves, 2)
-            a.taxon, b.taxon = b.taxon, a.taxon
-            edits.append("swap")
-        elif r < 0.6 and len(leaves) >= 3:
-            lf = rng.choice(leaves)
-            if lf._parent_node is not None and len(lf._parent_node._child_nodes) > 1:
-                lf._parent_node.remove_child(lf)
-                edits.append("remove")
-        elif r < 0.85 and len(leaves) >= 3:
-            lf = rng.choice(leaves)
-            p = lf._parent_node
-            targets = [nd for nd in nodes if nd._child_nodes and nd is not p]
-            if p is not None and len(p._child_nodes) > 2 and targets:
-                p.remove_child(lf)
-                rng.choice(targets).add_child(lf)
-                edits.append("regraft")
-        else:
-            unused = [t for t in tree.taxon_namespace if t not in {nd.taxon for nd in leaves}]
-            internal = [nd for nd in nodes if nd._child_nodes]
-            if unused and internal:
-                rng.choice(internal).new_child(taxon=unused[0])
-                edits.append("newchild")
-    toks, ids = tu.encode_tree(tree, with_labels=False)
-    case = {"op": "encode", "tree": toks, "rooted": ROOT[tree.is_rooted], "sup": True, "col": True,
-            "ns": namespace_desc(tree.taxon_namespace), "after_edits": edits}
-    if tu.leafset_masks(tree)[id(tree.seed_node)] == 0:
-        return
-    pairs = run_encode(tree, True, True)
-    check_encoding_exact(ctx, tree, case)
-    ctx.case(["reencode", toks, case["rooted"], edits], nontrivial_tree(tree), sample=case, kind="reencode")
-    got = " ".join("%d:%d" % p for p in pairs) + " | " + tu.render_tree(tree, ids)
-    pending.append(("encode %s 1 1 %s" % (case["rooted"], " ".join(toks)), case, got))
+    for e in case["edits"]:
+        apply_edit(dendropy, tree, e)
+    after = tree_case(tree, "encode", sup=True, col=True, variant=0)
+    judge_encode(ctx, dendropy, dict(case, sup=True, col=True, variant=0), pending, tree=tree, kind="reencode")
+    # the model is asked about the edited tree: re-point the pending line's case at a description of it
+    line, _, got = pending[-1]
+    pending[-1] = (line, dict(after, after_edits=case["edits"], before=case["tree"]), got)
 
 
-def namespace_desc(tns):
-    return {"bits": [tns.accession_index(t) for t in tns], "count": tns._current_accession_count}
+def split_set(tree, flags):
+    return set(b.split_bitmask for b in tree.encode_bipartitions(suppress_unifurcations=flags[0], collapse_unrooted_basal_bifurcation=flags[1]))
 
 
-def tree_for_case(dendropy, case):
-    """rebuild the real tree of a recorded case (namespace with the recorded member bits, holes included)"""
-    ns = case["ns"]
-    tns = dendropy.TaxonNamespace(["t%d" % i for i in range(ns["count"])])
-    keep = set(ns["bits"])
-    for t in list(tns):
-        if tns.accession_index(t) not in keep:
-            tns.remove_taxon(t)
-    order = {b: i for i, b in enumerate(ns["bits"])}
-    tns._taxa.sort(key=lambda t: order[tns.accession_index(t)])
-    rooted = {"R": True, "U": False, "N": None}[case["rooted"]]
-    tree, ids = tu.tree_from_tokens(dendropy, case["tree"], rooted=rooted, tns=tns)
-    return tree, ids
-
-
-def op_pair(ctx, dendropy):
-    """clause (c): equal split sets <=> same topology"""
-    rng = ctx.rng
-    t1 = gen_tree(dendropy, rng, ctx.pick(10, 25))
-    if tu.leafset_masks(t1)[id(t1.seed_node)] == 0:
-        return
-    unrooted = not t1.is_rooted
-    same = rng.random() < 0.5
-    if same:
-        t2 = redraw(dendropy, rng, t1, unrooted)
-    else:
-        # different drawing of the same leaf set: random other shape, or a small local change
-        leaves = [nd.taxon for nd in tu.walk(t1.seed_node) if not nd._child_nodes and nd.taxon is not None]
-        taxa = list(leaves)
-        rng.shuffle(taxa)
-        shape = tu.rand_shape(rng, len(taxa), p_poly=0.3, p_unary=0.1)
-        t2 = tu.build_tree(dendropy, shape, t1.taxon_namespace, taxa, None, t1.is_rooted)
-    toks1, _ = tu.encode_tree(t1, with_labels=False)
-    toks2, _ = tu.encode_tree(t2, with_labels=False)
-    case = {"op": "pair", "tree": toks1, "tree2": toks2, "rooted": ROOT[t1.is_rooted], "ns": namespace_desc(t1.taxon_namespace)}
-    canon = canon_unrooted if unrooted else canon_rooted
+def judge_pair(ctx, dendropy, case, pending):
+    """clause (c): equal split sets <=> same topology, each tree encoded under its own flags"""
+    t1, _ = tree_for_case(dendropy, case)
+    t2, _ = tree_for_case(dendropy, case, key="tree2", tns=t1.taxon_namespace)
+    canon = canon_rooted if t1.is_rooted else canon_unrooted
     c1, c2 = canon(t1), canon(t2)
-    s1 = set(b.split_bitmask for b in t1.encode_bipartitions())
-    s2 = set(b.split_bitmask for b in t2.encode_bipartitions())
-    ctx.case(["pair", toks1, toks2, case["rooted"]], nontrivial_tree(t1), sample=case, kind="pair-same" if c1 == c2 else "pair-diff")
+    nt = nontrivial_tree(t1)
+    s1 = split_set(t1, case.get("flags1", [True, True]))
+    s2 = split_set(t2, case.get("flags2", [True, True]))
+    ctx.case(["pair", case["tree"], case["tree2"], case["rooted"]], nt, sample=case, kind="pair-same" if c1 == c2 else "pair-diff")
     if (s1 == s2) != (c1 == c2):
-        ctx.fail("sufficiency", "split sets %s while topologies %s (rooting %s): %s vs %s" % (
-            "equal" if s1 == s2 else "differ", "equal" if c1 == c2 else "differ", case["rooted"], c1, c2), case)
-
-
-def op_rebuild(ctx, dendropy, pending):
-    """clause (d): a tree rebuilt from an encoding in any order has that topology over all namespace taxa"""
-    rng = ctx.rng
-    src = gen_tree(dendropy, rng, ctx.pick(10, 25))
-    if src.is_rooted is None:
-        src.is_rooted = rng.choice([True, False])
-    tns = src.taxon_namespace
-    toks, _ = tu.encode_tree(src, with_labels=False)
-    case = {"op": "rebuild", "tree": toks, "rooted": ROOT[src.is_rooted], "ns": namespace_desc(tns), "perm_seed": rng.randint(0, 10 ** 9)}
-    L = tu.leafset_masks(src)[id(src.seed_node)]
-    if L == 0:
-        return
-    enc = list(src.encode_bipartitions())
-    import random as _r
-    _r.Random(case["perm_seed"]).shuffle(enc)
-    rebuilt = dendropy.Tree.from_bipartition_encoding(enc, taxon_namespace=tns, is_rooted=src.is_rooted)
-    probs = tu.arborescence_problems(rebuilt)
-    if probs:
-        ctx.fail("rebuild", "rebuilt tree malformed: %s" % probs, case)
-    extras = sorted(tns.accession_index(t) for t in tns if not (L >> tns.accession_index(t)) & 1)
-    if src.is_rooted:
-        want, got = canon_rooted(src, extras), canon_rooted(rebuilt)
-    else:
-        want, got = canon_unrooted(src, extras), canon_unrooted(rebuilt)
-    ctx.case(["rebuild", toks, case["rooted"], case["perm_seed"]], nontrivial_tree(src), sample=case, kind="rebuild")
-    if want != got:
-        ctx.fail("rebuild", "tree rebuilt from its (shuffled) encoding has topology %s, source (+ absent namespace members at the root) is %s" % (got, want), case)
-    if bool(rebuilt.is_rooted) != bool(src.is_rooted):
-        ctx.fail("rebuild", "rebuilt tree has rooting %s, source %s" % (rebuilt.is_rooted, src.is_rooted), case)
-    # correspondence of from_split_bitmasks incl. child order, on the same shuffled split list
-    splits = [b.split_bitmask for b in enc]
-    add_build_line(ctx, dendropy, tns, bool(src.is_rooted), splits, pending)
+        ctx.fail("sufficiency", "split sets %s while topologies %s (rooting %s, flags %s / %s): %s vs %s" % (
+            "equal" if s1 == s2 else "differ", "equal" if c1 == c2 else "differ", case["rooted"],
+            case.get("flags1"), case.get("flags2"), c1, c2), case)
 
 
 def render_h(nd, tns):
@@ -508,68 +524,72 @@ def render_h(nd, tns):
     return "(" + ",".join(render_h(c, tns) for c in nd._child_nodes) + ")"
 
 
-def add_build_line(ctx, dendropy, tns, rooted, splits, pending):
+def add_build_line(ctx, dendropy, tns, rooted, splits, pending, case):
     members = [tns.accession_index(t) for t in tns]
     t = dendropy.Tree.from_split_bitmasks(splits, taxon_namespace=tns, is_rooted=rooted)
     got = render_h(t.seed_node, tns)
-    case = {"op": "build", "rooted": rooted, "splits": splits, "ns": namespace_desc(tns)}
     line = "build %d %d %d %s %s" % (tns.all_taxa_bitmask(), rooted, len(members), " ".join(map(str, members)), " ".join(map(str, splits)))
     pending.append((line.strip(), case, got))
+    return t
 
 
-def op_build_arbitrary(ctx, dendropy, pending):
-    """from_split_bitmasks on arbitrary lists: compatible, incompatible, duplicate, trivial, full, out-of-range masks"""
-    rng = ctx.rng
-    n = rng.randint(2, 8)
-    holes = [0] if rng.random() < 0.15 else []
-    tns = tu.make_namespace(dendropy, 0, labels=["t%d" % i for i in range(n + len(holes))], holes=holes)
-    allm = tns.all_taxa_bitmask()
-    splits = []
-    for _ in range(rng.randint(0, 7)):
-        r = rng.random()
-        if r < 0.7:
-            splits.append(rng.getrandbits(n + len(holes)))
-        elif r < 0.8:
-            splits.append(allm)
-        elif r < 0.9 and splits:
-            splits.append(rng.choice(splits))
-        else:
-            splits.append(rng.getrandbits(n + 3))
-    rooted = rng.random() < 0.5
-    ctx.case(["build", n, holes, rooted, splits], len(splits) >= 2, kind="build")
-    add_build_line(ctx, dendropy, tns, rooted, splits, pending)
+def judge_rebuild(ctx, dendropy, case, pending):
+    """clause (d): a tree rebuilt from an encoding in any order has that topology over all namespace taxa"""
+    import random as _r
+    src, _ = tree_for_case(dendropy, case)
+    tns = src.taxon_namespace
+    L = tu.leafset_masks(src)[id(src.seed_node)]
+    nt = nontrivial_tree(src)
+    enc = list(src.encode_bipartitions())
+    _r.Random(case["perm_seed"]).shuffle(enc)
+    extras = sorted(tns.accession_index(t) for t in tns if not (L >> tns.accession_index(t)) & 1)
+    canon = canon_rooted if src.is_rooted else canon_unrooted
+    want = canon(src, extras)
+    ctx.case(["rebuild", case["tree"], case["rooted"], case["perm_seed"]], nt, sample=case, kind="rebuild")
+    splits = [b.split_bitmask for b in enc]
+    built = [("from_bipartition_encoding", dendropy.Tree.from_bipartition_encoding(enc, taxon_namespace=tns, is_rooted=src.is_rooted)),
+             ("from_split_bitmasks", add_build_line(ctx, dendropy, tns, bool(src.is_rooted), splits, pending,
+                                                    {"op": "build", "rooted": bool(src.is_rooted), "splits": splits, "ns": case["ns"]}))]
+    for name, rebuilt in built:
+        probs = tu.arborescence_problems(rebuilt)
+        if probs:
+            ctx.fail("rebuild", "%s: rebuilt tree malformed: %s" % (name, probs), case)
+            continue
+        if rebuilt.taxon_namespace is not tns:
+            ctx.fail("rebuild", "%s: rebuilt tree is not over the namespace it was given" % name, case)
+        got = canon(rebuilt)
+        if want != got:
+            ctx.fail("rebuild", "%s: tree rebuilt from its (shuffled) encoding has topology %s, source (+ absent namespace members at the root) is %s" % (name, got, want), case)
+        if bool(rebuilt.is_rooted) != bool(src.is_rooted):
+            ctx.fail("rebuild", "%s: rebuilt tree has rooting %s, source %s" % (name, rebuilt.is_rooted, src.is_rooted), case)
 
 
-def op_tree_preds(ctx, dendropy, pending):
+def judge_build(ctx, dendropy, case, pending):
+    """from_split_bitmasks on arbitrary lists (compatible, incompatible, duplicate, trivial, full, out-of-range masks):
+    the statement promises nothing here beyond the model's account of the greedy insertion - correspondence only"""
+    tns = namespace_for(dendropy, case["ns"])
+    ctx.case(["build", case["ns"]["bits"], case["rooted"], case["splits"]], len(case["splits"]) >= 2, kind="build")
+    add_build_line(ctx, dendropy, tns, bool(case["rooted"]), case["splits"], pending, case)
+
+
+def judge_treepreds(ctx, dendropy, case, pending):
     """clause (e) on real Bipartition objects of two trees over the same leaves"""
-    rng = ctx.rng
-    t1 = gen_tree(dendropy, rng, ctx.pick(9, 16), hole_rate=0.2)
-    if t1.is_rooted is None:
-        t1.is_rooted = rng.choice([True, False])
-    masks = tu.leafset_masks(t1)
-    L = masks[id(t1.seed_node)]
-    if L == 0 or bin(L).count("1") < 3:
-        return
-    leaves = [nd.taxon for nd in tu.walk(t1.seed_node) if not nd._child_nodes and nd.taxon is not None]
-    taxa = list(leaves)
-    rng.shuffle(taxa)
-    t2 = tu.build_tree(dendropy, tu.rand_shape(rng, len(taxa), 0.3, 0.1), t1.taxon_namespace, taxa, None, t1.is_rooted)
-    toks1, _ = tu.encode_tree(t1, with_labels=False)
-    toks2, _ = tu.encode_tree(t2, with_labels=False)
-    case = {"op": "treepreds", "tree": toks1, "tree2": toks2, "rooted": ROOT[t1.is_rooted], "ns": namespace_desc(t1.taxon_namespace)}
+    t1, _ = tree_for_case(dendropy, case)
+    t2, _ = tree_for_case(dendropy, case, key="tree2", tns=t1.taxon_namespace)
+    L = tu.leafset_masks(t1)[id(t1.seed_node)]
+    nt = nontrivial_tree(t1)
+    toks1 = case["tree"]
     e1 = list(t1.encode_bipartitions())
     e2 = list(t2.encode_bipartitions())
     F = bits_of(L)
     rooted = bool(t1.is_rooted)
-    ctx.case(["treepreds", toks1, toks2, case["rooted"]], nontrivial_tree(t1), sample=case, kind="treepreds")
+    ctx.case(["treepreds", case["tree"], case["tree2"], case["rooted"]], nt, sample=case, kind="treepreds")
 
     def side(b):
         return bits_of(b.leafset_bitmask)
 
     def compatible(A, B):
-        if rooted:
-            return (not (A & B)) or A <= B or B <= A
-        return quadrants_empty(A, B, F)
+        return nested_or_disjoint(A, B) if rooted else quadrants_empty(A, B, F)
     for b in e1[:12]:
         A = side(b)
         want = len(A) <= 1 or len(F - A) <= 1
@@ -586,85 +606,260 @@ def op_tree_preds(ctx, dendropy, pending):
             if bool(b1.is_leafset_nested_within(b2)) != (A <= B):
                 ctx.fail("predicate", "is_leafset_nested_within = %s for %s within %s" % (b1.is_leafset_nested_within(b2), sorted(A), sorted(B)), case)
                 return
-    for b2 in e2[:10]:
+    for k, b2 in enumerate(e2[:10]):
         want = all(compatible(side(b1), side(b2)) for b1 in e1)
         got = bool(t1.is_compatible_with_bipartition(b2))
-        if rng.random() < 0.3:
-            t1.encode_bipartitions()
+        if k % 3 == 0:
+            # both values of the flag on a tree whose encoding is current, and on a tree that was never encoded
             got_u = bool(t1.is_compatible_with_bipartition(b2, is_bipartitions_updated=True))
-            if got_u != want:
-                ctx.fail("predicate", "Tree.is_compatible_with_bipartition(is_bipartitions_updated=True) on a current encoding = %s, set definition says %s" % (got_u, want), case)
-                return
+            fresh, _ = tree_for_case(dendropy, case)
+            got_f = bool(fresh.is_compatible_with_bipartition(b2, is_bipartitions_updated=True))
+            for name, g in (("on a current encoding", got_u), ("on a never-encoded tree", got_f)):
+                if g != want:
+                    ctx.fail("predicate", "Tree.is_compatible_with_bipartition(is_bipartitions_updated=True) %s = %s, set definition says %s" % (name, g, want), case)
+                    return
         if got != want:
             ctx.fail("predicate", "Tree.is_compatible_with_bipartition = %s, set definition over all edges says %s (leafset %s)" % (
                 got, want, sorted(side(b2))), case)
             return
         line = "compat %s %d %s" % (case["rooted"], b2.split_bitmask, " ".join(toks1))
-        pending.append((line, dict(case, split=b2.split_bitmask), "1" if got else "0"))
-    # the tree now carries an encoding: edit it through the public API and ask again with default arguments —
-    # the answer must describe the tree as it stands, not the encoding left behind by the earlier calls
-    nodes = tu.walk(t1.seed_node)
-    idx = dict((id(nd), i) for i, nd in enumerate(nodes))
-    lvs = [nd for nd in nodes if not nd._child_nodes]
-    edit = None
-    for _try in range(3):
-        r = rng.random()
-        if r < 0.4 and len(lvs) >= 2:
-            x, y = rng.sample(lvs, 2)
-            if x._parent_node is not y._parent_node:
-                edit = ["swap", idx[id(x)], idx[id(y)]]
-        elif r < 0.7:
-            internal = [nd for nd in nodes if nd._child_nodes and nd._parent_node is not None]
-            if internal:
-                edit = ["collapse", idx[id(rng.choice(internal))], 0]
-        else:
-            big = [nd for nd in nodes if len(nd._child_nodes) >= 3]
-            if big:
-                edit = ["group", idx[id(rng.choice(big))], 0]
-        if edit:
-            break
-    if edit:
-        stale_history(ctx, dendropy, t1, e2[:10], edit, dict(case, op="stalepred", edit=edit), queried=True)
+        pending.append((line, dict(case, op="compat", split=b2.split_bitmask), "1" if got else "0"))
 
 
-def stale_history(ctx, dendropy, t1, queries, edit, case, queried=False):
-    """query -> edit through the public API -> query again with default arguments"""
-    if not queried:
-        for b2 in queries:
-            t1.is_compatible_with_bipartition(b2)
-    nodes = tu.walk(t1.seed_node)
-    kind, i, j = edit
-    if kind == "swap":
-        x, y = nodes[i], nodes[j]
-        x.taxon, y.taxon = y.taxon, x.taxon
-    elif kind == "collapse":
-        nodes[i].edge.collapse()
-    else:
-        nd = nodes[i]
-        k1, k2 = nd._child_nodes[0], nd._child_nodes[1]
-        new = dendropy.Node()
-        nd.remove_child(k1)
-        nd.remove_child(k2)
-        new.add_child(k1)
-        new.add_child(k2)
-        nd.add_child(new)
+def judge_compat(ctx, dendropy, case, pending):
+    """one Tree.is_compatible_with_bipartition answer against the model (replay of a correspondence line)"""
+    t1, _ = tree_for_case(dendropy, case)
+    from dendropy.datamodel.treemodel._bipartition import Bipartition
+    L = tu.leafset_masks(t1)[id(t1.seed_node)]
+    b2 = Bipartition(leafset_bitmask=case["split"], tree_leafset_bitmask=L, is_rooted=t1.is_rooted, compile_bipartition=True)
+    got = bool(t1.is_compatible_with_bipartition(b2))
+    pending.append(("compat %s %d %s" % (case["rooted"], b2.split_bitmask, " ".join(case["tree"])), case, "1" if got else "0"))
+
+
+def judge_stale(ctx, dendropy, case, pending):
+    """query -> edit through the public API -> query again with default arguments: the answer must describe the tree as it
+    stands, not the encoding left behind by the earlier calls"""
+    t1, _ = tree_for_case(dendropy, case)
+    t2, _ = tree_for_case(dendropy, case, key="tree2", tns=t1.taxon_namespace)
+    queries = list(t2.encode_bipartitions())[:10]
+    for b2 in queries:
+        t1.is_compatible_with_bipartition(b2)
+    apply_edit(dendropy, t1, case["edit"])
     rooted = bool(t1.is_rooted)
     m1 = tu.leafset_masks(t1)
     F = bits_of(m1[id(t1.seed_node)])
     sides1 = [bits_of(m1[id(nd)]) for nd in tu.walk(t1.seed_node)]
+    ctx.case(["stalepred", case["tree"], case["tree2"], case["rooted"], case["edit"]], nontrivial_tree(t1), kind="stalepred")
 
     def compatible(A, B):
-        if rooted:
-            return (not (A & B)) or A <= B or B <= A
-        return quadrants_empty(A, B, F)
+        return nested_or_disjoint(A, B) if rooted else quadrants_empty(A, B, F)
     for b2 in queries:
-        B = bits_of(b2.leafset_bitmask)
+        B = bits_of(b2.leafset_bitmask) & F
         want = all(compatible(A, B) for A in sides1)
         got = bool(t1.is_compatible_with_bipartition(b2))
         if got != want:
             ctx.fail("predicate", "after the edit %s, Tree.is_compatible_with_bipartition (default arguments) = %s for leafset %s; "
-                     "the set definition on the tree as it stands says %s" % (edit, got, sorted(B), want), case)
+                     "the set definition on the tree as it stands says %s" % (case["edit"], got, sorted(B), want), case)
             return
+
+
+JUDGES = {"pyint": judge_pyint, "pred": judge_pred, "encode": judge_encode, "reencode": judge_reencode, "pair": judge_pair,
+          "rebuild": judge_rebuild, "build": judge_build, "treepreds": judge_treepreds, "stalepred": judge_stale,
+          "compat": judge_compat, "lsb": judge_bitfunction, "normalize": judge_bitfunction}
+
+
+def judge(ctx, dendropy, case, pending):
+    """run one self-contained case.  An exception raised BY THE LIBRARY inside an operation the property says is total is a
+    failure of kind 'exception' (replayable from the case); an exception raised by the harness itself propagates (exit 2)."""
+    import common
+    try:
+        JUDGES[case["op"]](ctx, dendropy, case, pending)
+    except Exception as e:
+        if not common.is_library_exception(e):
+            raise
+        ctx.fail("exception", "%s raised %s: %s" % (case["op"], type(e).__name__, str(e)[:200]), case)
+
+
+# ------------------------------------------------------------------ generators of cases
+def gen_pyint(ctx, dendropy):
+    rng = ctx.rng
+
+    def rint():
+        r = rng.random()
+        if r < 0.3:
+            return rng.randint(-40, 40)
+        if r < 0.6:
+            return rng.getrandbits(rng.choice([8, 20, 70, 130])) * rng.choice([1, -1])
+        return rng.randint(0, 255)
+    return {"op": "pyint", "a": rint(), "b": rint(), "k": rng.randint(0, 70)}
+
+
+def gen_pred(ctx, dendropy):
+    rng = ctx.rng
+    nb = rng.randint(1, 9)
+    if rng.random() < 0.85:
+        fill = (1 << nb) - 1
+        if rng.random() < 0.3:
+            fill &= ~(1 << rng.randrange(nb))
+        a, b = rng.getrandbits(nb), rng.getrandbits(nb)
+        r = rng.random()
+        if r < 0.7:
+            a &= fill
+            b &= fill
+        if r < 0.25 and fill:
+            # aim at the quadrant that separates the definitions: overlapping sets that together cover the leafset
+            b = (fill & ~a) | (a & rng.getrandbits(nb))
+    else:
+        fill, a, b = rng.randint(-5, 600), rng.randint(-600, 600), rng.randint(-600, 600)
+    return {"op": "pred", "a": a, "b": b, "fill": fill}
+
+
+def strip_some_taxa(rng, tree):
+    """taxon-less leaves (empty leafset masks), occasionally every leaf"""
+    leaves = [nd for nd in tu.walk(tree.seed_node) if not nd._child_nodes]
+    if rng.random() < 0.3:
+        for nd in leaves:
+            nd.taxon = None
+    else:
+        rng.choice(leaves).taxon = None
+
+
+def gen_encode(ctx, dendropy):
+    rng = ctx.rng
+    tree = gen_tree(dendropy, rng, ctx.pick(12, 40) if rng.random() < 0.9 else 3)
+    if rng.random() < 0.06:
+        strip_some_taxa(rng, tree)
+    return tree_case(tree, "encode", sup=rng.random() < 0.8, col=rng.random() < 0.8,
+                     variant=rng.choice([0, 0, 0, 1, 2, 3, 4, 5]))
+
+
+def gen_reencode(ctx, dendropy):
+    rng = ctx.rng
+    tree = gen_tree(dendropy, rng, ctx.pick(10, 25), hole_rate=0.2)
+    n = len(tu.walk(tree.seed_node))
+    edits = [[rng.choice(EDIT_KINDS[:4]), rng.randrange(n), rng.randrange(n)] for _ in range(rng.randint(1, 4))]
+    # aim: most random index pairs are inapplicable, so draw applicable ones half of the time
+    nodes = tu.walk(tree.seed_node)
+    leaves = [i for i, nd in enumerate(nodes) if not nd._child_nodes]
+    internal = [i for i, nd in enumerate(nodes) if nd._child_nodes]
+    if leaves and internal:
+        for e in edits:
+            if rng.random() < 0.7:
+                e[1] = rng.choice(internal if e[0] == "newchild" else leaves)
+                e[2] = rng.choice(leaves if e[0] == "swap" else internal)
+    return tree_case(tree, "reencode", edits=edits)
+
+
+def gen_two_trees(ctx, dendropy, max_leaves, same_rate):
+    rng = ctx.rng
+    t1 = gen_tree(dendropy, rng, max_leaves, hole_rate=0.25)
+    unrooted = not t1.is_rooted
+    r = rng.random()
+    if r < same_rate:
+        t2 = redraw(dendropy, rng, t1, unrooted)
+    elif r < same_rate + (1 - same_rate) / 2:
+        # near miss: the same tree re-drawn, then one leaf regrafted elsewhere
+        t2 = redraw(dendropy, rng, t1, unrooted)
+        nodes = tu.walk(t2.seed_node)
+        # (a leaf that is an only child stays: removing it would leave a taxon-less leaf, i.e. another leaf set)
+        leaves = [nd for nd in nodes if not nd._child_nodes and nd._parent_node is not None and len(nd._parent_node._child_nodes) >= 2]
+        internal = [nd for nd in nodes if nd._child_nodes]
+        if leaves and len(internal) > 1:
+            lf = rng.choice(leaves)
+            tgt = rng.choice([nd for nd in internal if nd is not lf._parent_node])
+            lf._parent_node.remove_child(lf)
+            tgt.add_child(lf)
+    else:
+        taxa = [nd.taxon for nd in tu.walk(t1.seed_node) if not nd._child_nodes and nd.taxon is not None]
+        rng.shuffle(taxa)
+        shape = tu.rand_shape(rng, len(taxa), p_poly=0.3, p_unary=0.1)
+        t2 = tu.build_tree(dendropy, shape, t1.taxon_namespace, taxa, None, t1.is_rooted)
+    toks2, _ = tu.encode_tree(t2, with_labels=False)
+    return t1, toks2
+
+
+def gen_pair(ctx, dendropy):
+    rng = ctx.rng
+    t1, toks2 = gen_two_trees(ctx, dendropy, ctx.pick(10, 25), 0.5)
+
+    def flags():
+        return [True, True] if rng.random() < 0.6 else [rng.random() < 0.5, rng.random() < 0.5]
+    return tree_case(t1, "pair", tree2=toks2, flags1=flags(), flags2=flags())
+
+
+def gen_rebuild(ctx, dendropy):
+    rng = ctx.rng
+    src = gen_tree(dendropy, rng, ctx.pick(10, 25))
+    if src.is_rooted is None:
+        src.is_rooted = rng.choice([True, False])
+    return tree_case(src, "rebuild", perm_seed=rng.randint(0, 10 ** 9))
+
+
+def gen_build(ctx, dendropy):
+    rng = ctx.rng
+    n = rng.randint(2, 8)
+    holes = [0] if rng.random() < 0.15 else []
+    tns = tu.make_namespace(dendropy, 0, labels=["t%d" % i for i in range(n + len(holes))], holes=holes)
+    allm = tns.all_taxa_bitmask()
+    splits = []
+    for _ in range(rng.randint(0, 7)):
+        r = rng.random()
+        if r < 0.7:
+            splits.append(rng.getrandbits(n + len(holes)))
+        elif r < 0.8:
+            splits.append(allm)
+        elif r < 0.9 and splits:
+            splits.append(rng.choice(splits))
+        else:
+            splits.append(rng.getrandbits(n + 3))
+    return {"op": "build", "rooted": rng.random() < 0.5, "splits": splits, "ns": namespace_desc(tns)}
+
+
+def gen_treepreds(ctx, dendropy):
+    rng = ctx.rng
+    for _ in range(20):
+        t1 = gen_tree(dendropy, rng, ctx.pick(9, 16), hole_rate=0.2)
+        if bin(tu.leafset_masks(t1)[id(t1.seed_node)]).count("1") >= 3:
+            break
+    if t1.is_rooted is None:
+        t1.is_rooted = rng.choice([True, False])
+    taxa = [nd.taxon for nd in tu.walk(t1.seed_node) if not nd._child_nodes and nd.taxon is not None]
+    rng.shuffle(taxa)
+    t2 = tu.build_tree(dendropy, tu.rand_shape(rng, len(taxa), 0.3, 0.1), t1.taxon_namespace, taxa, None, t1.is_rooted)
+    toks2, _ = tu.encode_tree(t2, with_labels=False)
+    return tree_case(t1, "treepreds", tree2=toks2)
+
+
+def gen_stale(ctx, dendropy):
+    rng = ctx.rng
+    case = gen_treepreds(ctx, dendropy)
+    t1, _ = tree_for_case(dendropy, case)
+    nodes = tu.walk(t1.seed_node)
+    lvs = [i for i, nd in enumerate(nodes) if not nd._child_nodes]
+    edit = None
+    for _try in range(4):
+        r = rng.random()
+        if r < 0.4 and len(lvs) >= 2:
+            x, y = rng.sample(lvs, 2)
+            if nodes[x]._parent_node is not nodes[y]._parent_node:
+                edit = ["swap", x, y]
+        elif r < 0.7:
+            internal = [i for i, nd in enumerate(nodes) if nd._child_nodes and nd._parent_node is not None]
+            if internal:
+                edit = ["collapse", rng.choice(internal), 0]
+        else:
+            big = [i for i, nd in enumerate(nodes) if len(nd._child_nodes) >= 3]
+            if big:
+                edit = ["group", rng.choice(big), 0]
+        if edit:
+            break
+    if not edit:
+        return case
+    return dict(case, op="stalepred", edit=edit)
+
+
+GENS = {"pyint": gen_pyint, "pred": gen_pred, "encode": gen_encode, "pair": gen_pair, "rebuild": gen_rebuild, "build": gen_build,
+        "treepreds": gen_treepreds, "stalepred": gen_stale, "reencode": gen_reencode}
 
 
 def flush(ctx, pending):
@@ -686,26 +881,8 @@ def flush(ctx, pending):
     del pending[:]
 
 
-OPS = [("pyint", 0.13), ("pred", 0.14), ("encode", 0.27), ("pair", 0.12), ("rebuild", 0.1), ("build", 0.08), ("treepreds", 0.1), ("reencode", 0.06)]
-
-
-def run_op(ctx, dendropy, op, pending):
-    if op == "pyint":
-        op_pyint(ctx, dendropy, pending)
-    elif op == "pred":
-        op_pred(ctx, dendropy, pending)
-    elif op == "encode":
-        op_encode(ctx, dendropy, pending)
-    elif op == "pair":
-        op_pair(ctx, dendropy)
-    elif op == "rebuild":
-        op_rebuild(ctx, dendropy, pending)
-    elif op == "build":
-        op_build_arbitrary(ctx, dendropy, pending)
-    elif op == "reencode":
-        op_reencode(ctx, dendropy, pending)
-    else:
-        op_tree_preds(ctx, dendropy, pending)
+OPS = [("pyint", 0.12), ("pred", 0.14), ("encode", 0.26), ("pair", 0.12), ("rebuild", 0.1), ("build", 0.08), ("treepreds", 0.07),
+       ("stalepred", 0.05), ("reencode", 0.06)]
 
 
 def run(ctx):
@@ -720,12 +897,8 @@ def run(ctx):
         if ctx.out_of_time():
             break
         op = rng.choices(names, weights)[0]
-        state = rng.getstate()
-        try:
-            run_op(ctx, dendropy, op, pending)
-        except Exception as e:  # the library raised inside an operation the property says is total
-            ctx.fail("exception", "%s raised %s: %s" % (op, type(e).__name__, str(e)[:200]),
-                     {"op": op, "rng_state": [state[0], list(state[1]), state[2]], "tier": ctx.tier})
+        case = GENS[op](ctx, dendropy)      # generators only build inputs through the Node/namespace API: a raise here is a harness error
+        judge(ctx, dendropy, case, pending)
         if len(pending) >= 800:
             flush(ctx, pending)
     flush(ctx, pending)
@@ -734,8 +907,7 @@ def run(ctx):
 
 
 def exhaustive(ctx, dendropy, pending):
-    """every shape <= 6 leaves (5 with all labelings) x rooting x flags; all predicate triples on 4 bits"""
-    from dendropy.datamodel.treemodel._bipartition import Bipartition
+    """every shape <= 6 leaves (<= 4 with all labelings) x rooting x flags; all predicate triples on 4 bits, judged by the oracle"""
     count = 0
     for n in range(1, 7):
         for shape in tu.all_shapes(n):
@@ -745,7 +917,7 @@ def exhaustive(ctx, dendropy, pending):
                     tns = tu.make_namespace(dendropy, n, extra=1)
                     members = list(tns)
                     tree = tu.build_tree(dendropy, shape, tns, [members[i] for i in perm], None, rooted)
-                    op_encode(ctx, dendropy, pending, tree=tree, flags=(True, True))
+                    judge(ctx, dendropy, tree_case(tree, "encode", sup=True, col=True, variant=0), pending)
                     count += 1
             if len(pending) >= 2000:
                 flush(ctx, pending)
@@ -753,101 +925,45 @@ def exhaustive(ctx, dendropy, pending):
     for fill in range(1, 16):
         for a in range(16):
             for b in range(16):
-                got = "%d %d" % (int(Bipartition.is_trivial_bitmask(a, fill)), int(Bipartition.is_compatible_bitmasks(a, b, fill)))
-                b1 = Bipartition(leafset_bitmask=a, tree_leafset_bitmask=fill, compile_bipartition=False)
-                got += " %d" % int(bool(b1.is_leafset_nested_within(b)))
-                pending.append(("pred %d %d %d" % (a, b, fill), {"op": "pred", "a": a, "b": b, "fill": fill}, got))
                 ctx.case(["pred", a, b, fill], True, kind="pred-exh")
+                judge_pred(ctx, dendropy, {"op": "pred", "a": a, "b": b, "fill": fill}, pending, count=False)
     flush(ctx, pending)
     ctx.extra["exhaustive_small_scope"] = "%d (shape<=6 leaves, labeling, rooting) encodings; all 3840 predicate triples over 4 bits" % count
 
 
 def replay(ctx, rec):
+    """re-run ONE recorded case: every case is self-contained, so this is the same judge the run used"""
     dendropy = __import__("dendropy")
-    from dendropy.datamodel.treemodel._bipartition import Bipartition
-    c = rec["replay"]
     pending = []
-    op = c.get("op")
-    if "rng_state" in c:
-        st = c["rng_state"]
-        ctx.rng.setstate((st[0], tuple(st[1]), st[2]))
-        ctx.tier = c.get("tier", ctx.tier)
-        try:
-            run_op(ctx, dendropy, op, pending)
-        except Exception as e:
-            ctx.fail("exception", "%s raised %s: %s" % (op, type(e).__name__, str(e)[:200]), c)
-    elif op == "encode":
-        tree, _ = tree_for_case(dendropy, c)
-        op_encode(ctx, dendropy, pending, tree=tree, flags=(c["sup"], c["col"]), variant=c.get("variant", 0))
-    elif op == "pred":
-        a, b, fill = c["a"], c["b"], c["fill"]
-        A, B, F = bits_of(a), bits_of(b), bits_of(fill)
-        if bool(Bipartition.is_trivial_bitmask(a, fill)) != (len(A) <= 1 or len(F - A) <= 1):
-            ctx.fail("predicate", "is_trivial_bitmask(%d,%d) wrong" % (a, fill), c)
-        if F and min(F) not in A and min(F) not in B and bool(Bipartition.is_compatible_bitmasks(a, b, fill)) != quadrants_empty(A, B, F):
-            ctx.fail("predicate", "is_compatible_bitmasks(%d,%d,%d) wrong" % (a, b, fill), c)
-    elif op == "stalepred":
-        t1, _ = tree_for_case(dendropy, c)
-        t2, _ = tu.tree_from_tokens(dendropy, c["tree2"], rooted=t1.is_rooted, tns=t1.taxon_namespace)
-        stale_history(ctx, dendropy, t1, list(t2.encode_bipartitions())[:10], c["edit"], c)
-    elif op in ("pair", "treepreds", "rebuild"):
-        t1, _ = tree_for_case(dendropy, c)
-        if op == "rebuild":
-            import random as _r
-            enc = list(t1.encode_bipartitions())
-            L = tu.leafset_masks(t1)[id(t1.seed_node)]
-            _r.Random(c["perm_seed"]).shuffle(enc)
-            tns = t1.taxon_namespace
-            rebuilt = dendropy.Tree.from_bipartition_encoding(enc, taxon_namespace=tns, is_rooted=t1.is_rooted)
-            extras = sorted(tns.accession_index(t) for t in tns if not (L >> tns.accession_index(t)) & 1)
-            canon = canon_rooted if t1.is_rooted else canon_unrooted
-            if canon(t1, extras) != canon(rebuilt):
-                ctx.fail("rebuild", "rebuilt topology %s, source %s" % (canon(rebuilt), canon(t1, extras)), c)
-        else:
-            c2 = dict(c, tree=c["tree2"])
-            t2, _ = tree_for_case(dendropy, c2)
-            t2 = dendropy.Tree(t2, taxon_namespace=t1.taxon_namespace) if False else t2
-            # same namespace object is needed: rebuild t2 over t1's namespace
-            t2, _ = tu.tree_from_tokens(dendropy, c["tree2"], rooted=t1.is_rooted, tns=t1.taxon_namespace)
-            canon = canon_rooted if t1.is_rooted else canon_unrooted
-            s1 = set(b.split_bitmask for b in t1.encode_bipartitions())
-            s2 = set(b.split_bitmask for b in t2.encode_bipartitions())
-            if op == "pair" and (s1 == s2) != (canon(t1) == canon(t2)):
-                ctx.fail("sufficiency", "split sets %s, topologies %s" % (s1 == s2, canon(t1) == canon(t2)), c)
+    if "replay" not in rec:
+        # a record of correspondence disagreements without any oracle failure: re-ask the model about each recorded case
+        for d in rec.get("correspondence_disagreements", []):
+            if isinstance(d.get("case"), dict) and d["case"].get("op") in JUDGES:
+                judge(ctx, dendropy, d["case"], pending)
+        flush(ctx, pending)
+        return
+    c = rec["replay"]
+    if c.get("op") not in JUDGES or "rng_state" in c:
+        ctx.note("replay record of an unknown/legacy format: %s" % sorted(c)[:8])
+        return
+    judge(ctx, dendropy, c, pending)
     flush(ctx, pending)
 
 
 def search(ctx, broken):
-    """obligations broke: exhaustive small domain of the integer functions against their set-theoretic meaning"""
-    from dendropy.datamodel.treemodel._bipartition import Bipartition
-    from dendropy.utility import bitprocessing
+    """obligations broke: exhaustive small domain of the integer functions and predicates against their set-theoretic meaning"""
+    dendropy = __import__("dendropy")
+    pending = []
     for fill in range(1, 32):
-        F = bits_of(fill)
-        lrb = fill & -fill
-        if bitprocessing.least_significant_set_bit(fill) != lrb:
-            ctx.fail("bitfunction", "least_significant_set_bit(%d) = %d, lowest set bit is %d" % (
-                fill, bitprocessing.least_significant_set_bit(fill), lrb), {"op": "lsb", "n": fill})
-            return
+        judge(ctx, dendropy, {"op": "lsb", "n": fill}, pending)
         for a in range(32):
             if a & ~fill:
                 continue
-            A = bits_of(a)
-            got = Bipartition.normalize_bitmask(a, fill, lrb)
-            want = sum(1 << i for i in ((F - A) if min(F) in A else A))
-            if got != want:
-                ctx.fail("bitfunction", "normalize_bitmask(%d, %d, %d) = %d, expected %d" % (a, fill, lrb, got, want),
-                         {"op": "normalize", "a": a, "fill": fill})
-                return
-            case = {"op": "pred", "a": a, "b": 0, "fill": fill}
-            if bool(Bipartition.is_trivial_bitmask(a, fill)) != (len(A) <= 1 or len(F - A) <= 1):
-                ctx.fail("predicate", "is_trivial_bitmask(%d,%d) wrong" % (a, fill), case)
-                return
+            judge(ctx, dendropy, {"op": "normalize", "a": a, "fill": fill}, pending)
             for b in range(32):
                 if b & ~fill:
                     continue
-                B = bits_of(b)
-                if min(F) in A or min(F) in B:
-                    continue
-                if bool(Bipartition.is_compatible_bitmasks(a, b, fill)) != quadrants_empty(A, B, F):
-                    ctx.fail("predicate", "is_compatible_bitmasks(%d,%d,%d) wrong" % (a, b, fill), dict(case, b=b))
-                    return
+                judge_pred(ctx, dendropy, {"op": "pred", "a": a, "b": b, "fill": fill}, pending, count=False)
+        if ctx.failures:
+            break
+    del pending[:]
